@@ -13,7 +13,8 @@ RULE = ('scripted non-decreasing clocks (ints and dyadic rationals, repeats '
         'processors each; for EVERY (iteration, processor) position of small '
         'frame scripts (<=3 iterations x <=3 processors, exhaustive) one '
         'terminating fault {raise Quit, quit_loop(world), quit_loop() through '
-        'the default loop, raise a harness exception}, optionally preceded by '
+        'the default loop, raise a harness exception, Quit raised by the '
+        'load of the handle being switched to}, optionally preceded by '
         'a switch request (desper.switch or raise SwitchWorld, also to the '
         'current handle) at every earlier position; then the SAME loop object '
         'is started again 1-3 times (after Quit and after a propagated '
@@ -45,7 +46,11 @@ ASSUMPTIONS = ["don't-care: `running` after a non-Quit exception",
                'clock readings are dyadic rationals (differences exact)']
 
 TERMINATORS = ['quit', 'quit_loop_world', 'quit_loop_default', 'harness',
-               'quit_handler_raises']
+               'quit_handler_raises',
+               # Quit raised while the loop executes a switch: the target
+               # handle's load quits (raise SwitchWorld(h) from the frame,
+               # or loop.switch(h) called in the frame)
+               'switch_load_quits', 'soft_switch_load_quits']
 SWITCHES = ['switch', 'raise_switch', 'switch_self']
 # loop.switch(handle) called from inside a frame: no exception, the frame is
 # completed, the next iteration processes the new current world
@@ -149,6 +154,10 @@ def run_case(case):
         def load(self):
             return self.world
 
+    class QuitHandle(desper.Handle):
+        def load(self):
+            raise desper.Quit()
+
     def make_proc(wi, pj):
         def process(self, dt=1):
             log.append(('proc', state['start'], state['iter'], wi, pj, dt))
@@ -197,6 +206,11 @@ def run_case(case):
                 raise desper.SwitchWorld(handles[target])
             desper.switch(handles[target], from_world=worlds[wi])
         fault['kind'] = kind
+        if kind == 'switch_load_quits':
+            raise desper.SwitchWorld(QuitHandle())
+        if kind == 'soft_switch_load_quits':
+            loop.switch(QuitHandle())
+            raise HarnessError('a load that quits did not end the frame')
         if kind == 'quit':
             raise desper.Quit()
         if kind in ('quit_loop_world', 'quit_handler_raises'):
